@@ -388,6 +388,22 @@ fn handle(ctx: &mut rink_core::Context, req: &J) -> J {
             }
             json!({"outcome": "ok", "lookups": outs, "defines": defs})
         }),
+        "pretty_unit" => guarded(|| {
+            // Number::pretty_unit (pub) on a context whose derived-unit table and long names come from the request
+            let mut c = rink_core::Context::new();
+            for (name, dims) in req["derived"].as_object().unwrap() {
+                let d: Dimensionality = dims.as_object().unwrap().iter()
+                    .map(|(k, e)| (BaseUnit::new(k), e.as_i64().unwrap())).collect();
+                c.registry.decomposition_units.insert(d, name.clone());
+            }
+            for (k, long) in req["long_names"].as_object().unwrap() {
+                c.registry.base_unit_long_names.insert(k.clone(), long.as_str().unwrap().to_string());
+            }
+            let n = number(&req["number"]);
+            let d = n.with_pretty_unit(&c).unit;
+            let m: serde_json::Map<String, J> = d.iter().map(|(k, e)| (k.to_string(), json!(*e))).collect();
+            json!({"outcome": "ok", "unit": m})
+        }),
         "rat_to_string" => guarded(|| {
             // BigRat::to_string / to_scientific at the unit level (both pub): (exact flag, numeral text)
             use rink_core::output::Digits;
